@@ -305,6 +305,41 @@ def backtrace_shapes():
                   decl.replace("\n", " "), exercises=["impl/src/error.rs::infer_source_field"], quick=True, tags=["backtrace"])]
 
 
+def multi_param_shape():
+    """Several parameters inside ONE #[error(..)] attribute, in both orders (every layout of the main grid writes a single parameter per attribute):
+    an explicit `source` written after / before a `not(backtrace)` group still selects its field - also against a sibling *named* `source`."""
+    decl = ("#[derive(Debug, derive_more::Error)]\npub struct NotFirst { pub source: Er, #[error(not(backtrace), source)] pub cause: Er }\n"
+            "#[derive(Debug, derive_more::Error)]\npub struct NotLast { pub source: Er, #[error(source, not(backtrace))] pub cause: Er }\n"
+            "#[derive(Debug, derive_more::Error)]\npub struct Tup(pub Er, #[error(not(backtrace), source)] pub Er);\n"
+            "#[derive(Debug, derive_more::Error)]\npub enum EV { A { source: Er, #[error(not(backtrace), source)] cause: Er }, B(Er, #[error(source, not(backtrace))] Er), "
+            "C { #[error(not(source), not(backtrace))] source: Er } }\nplain_display!(NotFirst, NotLast, Tup, EV);")
+    src = """    #[kani::proof]
+    fn several_parameters_in_one_attribute() {
+        let a = NotFirst { source: Er(kani::any()), cause: Er(kani::any()) };
+        %s
+        let b = NotLast { source: Er(kani::any()), cause: Er(kani::any()) };
+        %s
+        let t = Tup(Er(kani::any()), Er(kani::any()));
+        %s
+        let v = match kani::any::<u8>() %% 3 { 0 => EV::A { source: Er(kani::any()), cause: Er(kani::any()) }, 1 => EV::B(Er(kani::any()), Er(kani::any())), _ => EV::C { source: Er(kani::any()) } };
+        let got = v.source();
+        match &v {
+            EV::A { cause, .. } => { %s }
+            EV::B(_, t1) => { %s }
+            EV::C { .. } => { %s }
+        }
+        kani::cover!(matches!(v, EV::B(..)), "reach B");
+    }
+""" % (expect_src("a.source()", "addr_of(&a.cause)", "`#[error(not(backtrace), source)]` next to a field named source"),
+       expect_src("b.source()", "addr_of(&b.cause)", "`#[error(source, not(backtrace))]` next to a field named source"),
+       expect_src("t.source()", "addr_of(&t.1)", "tuple field 1 marked `not(backtrace), source`"),
+       expect_src("got", "addr_of(cause)", "variant A"), expect_src("got", "addr_of(t1)", "variant B"), expect_src("got", None, "`not(source), not(backtrace)` on a field named source"))
+    return Shape("c09_several_parameters_in_one_attribute", HEAD + decl + "\n\n#[cfg(kani)]\nmod proofs {\n    use super::*;\n" + src + "}\n",
+                 [Harness("several_parameters_in_one_attribute", "payloads and variant symbolic", covers=1,
+                          asserts="parameters written after a `not(..)` group inside one attribute still count: the explicitly marked field is the source")],
+                 decl.replace("\n", " "), exercises=["impl/src/utils.rs::parse_punctuated_nested_meta", "impl/src/error.rs::parse_fields"], quick=True)
+
+
 def all_layouts():
     for named in (False, True):
         for n in (1, 2, 3):
@@ -350,7 +385,7 @@ def shapes(tier):
         ign_before = any(attrs[i] == "ignore" and any(a != "ignore" for a in attrs[i + 1:]) for i in range(n))
         quick = n == 1 or (ign_before and (k % 3 == 0 or n == 2)) or k % 11 == 0
         out.append(layout_shape(named, attrs, names, quick))
-    out += special_shapes() + backtrace_shapes()
+    out += special_shapes() + backtrace_shapes() + [multi_param_shape()]
     out += ambiguous_shapes()
     shapes.excluded = excluded
     if tier == "quick":
